@@ -984,6 +984,7 @@ class BaseDAGExecution(Generic[P, RVDAG]):
     executed: bool = False
     cached_nodes: List[ExecNode] = field(init=False, default_factory=list)
     _cache_loaded: bool = field(init=False, default=False)
+    _started: bool = field(init=False, default=False)
 
     profiles: Dict[Identifier, Profile] = field(init=False, default_factory=dict)
 
@@ -1062,8 +1063,10 @@ class BaseDAGExecution(Generic[P, RVDAG]):
             pickle.dump(to_cache_results, f, protocol=pickle.HIGHEST_PROTOCOL, fix_imports=False)
 
     def _pre_call(self) -> None:
-        if self.executed:
+        # the scheduler consumes the graph: an execution that failed can not be restarted either
+        if self.executed or self._started:
             raise TawaziUsageError("DAGExecution object has already been executed.")
+        self._started = True
 
         if self.from_cache:
             with open(self.from_cache, "rb") as f:
